@@ -2,10 +2,11 @@
 """seed_meta.py <id> <ctest summary> <demo rc with> <demo rc without> <detected 0|1> <detected_by> [history]
 writes seeded/<id>/meta.json from seeded/<id>/agent_meta.json and what the coordinator ran"""
 import json, sys
-pid, ctest, dw, dwo, det, by = sys.argv[1:7]
+dname, ctest, dw, dwo, det, by = sys.argv[1:7]
+pid = dname.split('-')[0]
 hist = sys.argv[7] if len(sys.argv) > 7 else ''
 props = {json.loads(l)['id']: json.loads(l) for l in open('/verif/properties.jsonl')}
-a = json.load(open('/verif/seeded/%s/agent_meta.json' % pid))
+a = json.load(open('/verif/seeded/%s/agent_meta.json' % dname))
 m = {'property': pid, 'property_title': props[pid]['title'], 'summary': a.get('summary'), 'needs_to_manifest': a.get('needs_to_manifest'),
      'files_changed': a.get('files_changed'),
      'produced_by': 'fresh sub-agent given only the property text and its own scratch worktree of /repo; nothing from /verif',
@@ -16,5 +17,5 @@ m = {'property': pid, 'property_title': props[pid]['title'], 'summary': a.get('s
                     'check': 'VERIF_REPO=<worktree> tools/vcheck %s -> %s' % (pid, 'exit 1 with a VIOLATION line' if det == '1' else 'exit 0 (missed)')},
      'detected': det == '1', 'detected_by': by, 'history': hist,
      'agent_report': {'tests_run': a.get('tests_run'), 'demo_run': a.get('demo_run')}}
-json.dump(m, open('/verif/seeded/%s/meta.json' % pid, 'w'), indent=1)
-print('wrote', pid)
+json.dump(m, open('/verif/seeded/%s/meta.json' % dname, 'w'), indent=1)
+print('wrote', dname)
